@@ -112,6 +112,42 @@ m('c06-dir-copy-flat', 'C06', 'data.py', "        shutil.move(str(self.tmp_path)
 m('c06-load-touches-file', 'C06', 'data.py', "        self._value = json.load(self.path.open())\n        return self._value", "        self._value = json.load(self.path.open())\n        json.dump(self._value, self.path.open('w'), sort_keys=True)\n        return self._value")
 m('c06-pandas-csv', 'C06', 'data.py', "        self.value.to_pickle(self.path)", "        self.value.reset_index(drop=True).to_pickle(self.path) if isinstance(self.value.index, pd.RangeIndex) is False and len(self.value) == 0 else self.value.to_pickle(self.path)")
 
+# ---- C08 -----------------------------------------------------------------------------------------------
+m('c08-no-acyclic-check', 'C08', 'chain.py', "        if not nx.is_directed_acyclic_graph(G):\n            raise ValueError('Chain is not acyclic')\n", "")
+m('c08-ignore-excluded', 'C08', 'chain.py', "                    if _task_class in excluded_tasks:\n                        return\n", "")
+m('c08-root-namespace-inputs', 'C08', 'chain.py', "                    input_task_name = (  # add current config to reference\n                        f'{task.get_config().namespace}::{input_task_name}'\n                    )", "                    pass")
+m('c08-abstract-kept', 'C08', 'chain.py', "                            if task_class.meta.get('abstract', False):\n                                continue\n", "")
+m('c08-optional-swallow', 'C08', 'chain.py', "                    if not required:\n                        input_tasks[input_task_name] = default\n                        continue\n                    raise ValueError(f'Input task `{input_task_name}` of task `{task}` not found')",
+  "                    input_tasks[input_task_name] = None if required else default\n                    continue")
+m('c08-ancestors-for-dependents', 'C08', 'chain.py', "        descendants = nx.descendants(self.graph, task)", "        descendants = nx.ancestors(self.graph, task)")
+m('c08-startswith-ns', 'C08', 'chain.py', "and not input_task_name.startswith(f'{task.get_config().namespace}::')", "and not input_task_name.startswith(task.get_config().namespace)")
+m('c08-prefix-import', 'C08', 'utils/clazz.py', "    if not has_wiled_card and parts[-1] in module.__dict__:", "    if False:")
+m('c08-first-pass-sharing', 'C08,C09', 'chain.py', "task_registry=None if self._parameter_mode else self._task_registry)", "task_registry={} if self._parameter_mode else self._task_registry)")
+# ---- C09 -----------------------------------------------------------------------------------------------
+m('c09-ns-before-global', 'C09', 'config.py', "        self._data.update(deepcopy(context.data))\n        if self.namespace:\n            for namespace, data in context.for_namespaces.items():\n                if self.namespace == namespace:\n                    self._data.update(deepcopy(data))",
+  "        if self.namespace:\n            for namespace, data in context.for_namespaces.items():\n                if self.namespace == namespace:\n                    self._data.update(deepcopy(data))\n        self._data.update(deepcopy(context.data))")
+m('c09-ns-prefix-match', 'C09', 'config.py', "                if self.namespace == namespace:", "                if self.namespace.startswith(namespace):")
+m('c09-no-deepcopy', 'C09', 'config.py', "        self._data.update(deepcopy(context.data))", "        self._data.update(context.data)")
+m('c09-first-context-wins', 'C09', 'config.py', "        for context in contexts:\n            data.update(context.data)", "        contexts = list(contexts)[::-1]\n        for context in contexts:\n            data.update(context.data)")
+m('c09-part-not-rewritten', 'C09', 'config.py', "                self._data['uses'][i] = str(self._filepath) + use", "                self._data['uses'][i] = use")
+m('c09-conflict-eq', 'C09', 'chain.py', "tasks[task_name].get_config() is not _task.get_config():", "tasks[task_name].get_config() != _task.get_config():")
+m('c09-ctx-uses-deleted', 'C09', 'config.py', "        context = deepcopy(context)\n        current_context_data = context.for_namespaces[namespace] if namespace else context\n", "")
+m('c09-dtype-unchecked', 'C09', 'parameter.py', "        if self.dtype is not None:\n            if (", "        if self.dtype is not None and self.dtype is not int:\n            if (")
+m('c09-required-falls-to-none', 'C09', 'parameter.py', "            if self.required:\n                raise ValueError(f'Value for parameter `{self}` not found in config `{config}`')\n            value = self.default", "            value = None if self.required else self.default")
+m('c09-name-in-config-ignored', 'C09', 'parameter.py', "        if self.name_in_config in config:\n            value = config[self.name_in_config]", "        if self.name in config:\n            value = config[self.name]")
+m('c09-context-ns-not-composed', 'C09', 'config.py', "sub_namespace = f'{context.namespace}::{matched[2]}' if context.namespace else matched[2]", "sub_namespace = matched[2]")
+# ---- C12 -----------------------------------------------------------------------------------------------
+m('c12-separator', 'C12', 'parameter.py', "            return '###'.join(reprs)", "            return '##'.join(reprs)")
+m('c12-hash-length', 'C12', 'chain.py', ".hexdigest()[:32]", ".hexdigest()[:40]")
+m('c12-sha1', 'C12', 'chain.py', "        return sha256(f'{parameter_repr}$$${input_tasks_repr}'.encode()).hexdigest()[:32]", "        from hashlib import sha1\n        return sha1(f'{parameter_repr}$$${input_tasks_repr}'.encode()).hexdigest()[:32]")
+m('c12-unsorted-params', 'C12', 'parameter.py', "        for name, parameter in sorted(self._parameters.items()):", "        for name, parameter in self._parameters.items():")
+m('c12-str-repr', 'C12', 'utils/clazz.py', "        return f\"'{obj}'\"", "        return repr(obj)")
+m('c12-group-underscore', 'C12', 'task.py', "        path = self._config.base_dir / self.slugname.replace(':', '/')", "        path = self._config.base_dir / self.slugname.replace(':', '_')")
+m('c12-log-name', 'C12', 'data.py', "        return path.parent / f'{path.stem}.log'", "        return path.parent / f'{path.name}.log'")
+m('c12-unsorted-inputs', 'C12', 'chain.py', "for n, it in sorted(self.input_tasks.items()))", "for n, it in self.input_tasks.items())")
+m('c12-ns-kept-in-input-names', 'C12', 'chain.py', "                _name = _name[len(outer_namespace) + 2 :]", "                pass")
+m('c12-dict-unsorted', 'C12', 'utils/clazz.py', "for key, val in sorted(obj.items())", "for key, val in obj.items()")
+
 
 def make_scratch():
     d = Path(tempfile.mkdtemp(prefix='tcmut-'))
